@@ -8,7 +8,7 @@ use std::rc::Rc;
 use std::sync::Arc;
 use std::thread;
 
-use crate::coroutine_impl::{spawn_builder, Builder, Coroutine};
+use crate::coroutine_impl::{current_cancel_data, is_coroutine, spawn_builder, Builder, Coroutine};
 use crate::join::JoinHandle;
 use crate::sync::AtomicOption;
 
@@ -48,7 +48,28 @@ impl JoinState {
         let mut state = JoinState::Joined;
         mem::swap(self, &mut state);
         if let JoinState::Running(handle) = state {
+            // A scoped coroutine may borrow from the stack frame that owns the scope, so this
+            // wait must not be left before the coroutine is done. A cancelled waiter does not
+            // block: `yield_with` returns at once, and while unwinding `check_cancel` does not
+            // re-panic, so every remaining join of `drop_all` would return immediately and the
+            // scope would be left with its coroutines still running. Postpone the cancel until
+            // the coroutine is finished and its handle is gone (dropping the handle can yield
+            // in `Park::drop`); a wake-up caused by `cancel()` just waits again.
+            let cancel = if is_coroutine() {
+                Some(current_cancel_data())
+            } else {
+                None
+            };
+            if let Some(c) = cancel {
+                c.disable_cancel();
+            }
+            while !handle.is_done() {
+                handle.wait();
+            }
             let res = handle.join();
+            if let Some(c) = cancel {
+                c.enable_cancel();
+            }
 
             // TODO: when panic happened, the logic need to refine
             if !thread::panicking() {
